@@ -356,7 +356,19 @@ class Rng:
             return bytes(i & 0xFF for i in range(n))
         if cls == 'h':
             return bytes(0x80 | self.r.getrandbits(7) for _ in range(n))
-        return bytes(self.r.getrandbits(8) for _ in range(n))
+        b = bytes(self.r.getrandbits(8) for _ in range(n))
+        # value classes at the boundaries of a string: padding-like endings and beginnings
+        if cls == 'e' and n:                      # ends in 0x00
+            return b[:-1] + b'\x00'
+        if cls == 't' and n:                      # ends in a run of 0x00
+            k = min(n, 1 + self.r.randint(1, 19))
+            return b[:n - k] + bytes(k)
+        if cls == '8' and n:                      # ends in 0x80 (the hash padding byte) then zeros
+            k = min(n, self.r.choice([1, 2, 5, 16]))
+            return b[:n - k] + b'\x80' + bytes(k - 1)
+        if cls == 'l' and n:                      # begins with 0x00
+            return b'\x00' + b[1:]
+        return b
 
     def hex(self, n, cls='r'):
         return hx(self.bytes(n, cls))
